@@ -137,14 +137,17 @@ Proof. exact maybe_densify_rule_proof. Qed.
 Print Assumptions maybe_densify_rule.
 
 (* ---- the fill correction of an additive reduction (SparseArray.reduce with np.add), for every fill value including
-   +-inf and NaN and for complete groups (until fix f1f8980 the latter gave NaN: finding D29) *)
+   +-inf and NaN and for complete groups (until fix f1f8980 the latter gave NaN: finding D29).
+   reduce_correction_pinned: the statements the model transcribes are present in the regenerated source facts. *)
 Theorem sum_fill_correction :
+  reduce_correction_pinned /\
   forall stored fill n, (List.length stored <= n)%nat ->
     sum_group_impl stored fill n = sum_group_spec stored fill n.
 Proof. exact sum_fill_correction_proof. Qed.
 Print Assumptions sum_fill_correction.
 
 Theorem sum_result_fill_right :
+  reduce_correction_pinned /\
   forall fill n, sum_result_fill fill n = xsum (repeat fill n).
 Proof. exact sum_result_fill_right_proof. Qed.
 Print Assumptions sum_result_fill_right.
